@@ -89,6 +89,12 @@ func ParseShootName(shoot string) (string, int, int, error) {
 	return name, cnt, sleep, nil
 }
 
+// MaxSpreadSize is the largest number of entries scenario weights may be spread over.
+const MaxSpreadSize = 1 << 20
+
+// SpreadNames returns for every scenario the number of entries its weight stands for, once the
+// weights are divided by their common divisor, and the total number of entries.
+// Weights that need more than MaxSpreadSize entries give a total of MaxSpreadSize+1.
 func SpreadNames(input []ScenarioConfig) (map[string]int, int) {
 	if len(input) == 0 {
 		return nil, 0
@@ -112,8 +118,12 @@ func SpreadNames(input []ScenarioConfig) (map[string]int, int) {
 	total := 0
 	for _, sc := range input {
 		cnt := int(sc.Weight / div)
-		total += cnt
 		names[sc.Name] = cnt
+		if cnt > MaxSpreadSize-total {
+			total = MaxSpreadSize + 1 // too large; saturated, so that the sum cannot overflow either
+			continue
+		}
+		total += cnt
 	}
 	return names, total
 }
